@@ -216,6 +216,20 @@ class SMap:
         return f"SMap({self.desc})"
 
 
+class SDict:
+    """Mutable dict with symbolic string keys and real values: key set and value map as z3 arrays (functional updates)."""
+    __slots__ = ("keys", "vals", "oid")
+
+    def __init__(self, keys, vals):
+        self.keys = keys      # Array Name -> Bool
+        self.vals = vals      # Array Name -> Real
+        _oid[0] += 1
+        self.oid = _oid[0]
+
+    def __repr__(self):
+        return "SDict"
+
+
 class SSet:
     """Set of Variables (keyed by name) given by its membership predicate over Name terms."""
     __slots__ = ("member", "desc")
